@@ -18,6 +18,7 @@ vars == <<l, cps>>
 Ev == Rec[l]
 Is(op) == l <= N /\ Rec[l].op = op
 Step == l' = l + 1
+Has(e, f) == f \in DOMAIN e
 Put(f, k, v) == [x \in (DOMAIN f) \cup {k} |-> IF x = k THEN v ELSE f[x]]
 Nat8(bs) == BytesToNat(bs)
 CodeOf(e) == Code(e.c, e.k, Nat8(e.cb))
@@ -70,9 +71,13 @@ ZZSweep ==
 
 \* ---- byte-level VByte
 VBBytes(variant, n) == IF variant \in {"be", "generic-be"} THEN VByteBytesBe(n) ELSE VByteBytesLe(n)
+\* the sink may take a few bytes per call (chunk) and may run out of room (cap): everything is
+\* delivered, or the call fails having delivered a prefix
 VBWrite == /\ Is("vb_write") /\ Step /\ UNCHANGED cps
            /\ LET n == Nat8(Ev.v)  bs == VBBytes(Ev.variant, n)
-              IN  Ev.res = "ok" /\ Ev.bytes = bs /\ Ev.ret = Len(bs) /\ 8 * Len(bs) = LenVByte(n)
+              IN  IF Has(Ev, "cap") /\ Ev.cap < Len(bs)
+                  THEN Ev.res = "err" /\ Len(Ev.bytes) <= Len(bs) /\ Ev.bytes = SubSeq(bs, 1, Len(Ev.bytes))
+                  ELSE Ev.res = "ok" /\ Ev.bytes = bs /\ Ev.ret = Len(bs) /\ 8 * Len(bs) = LenVByte(n)
 \* decoding a byte string: the decoder consumes exactly the terminated prefix
 VBRead == /\ Is("vb_read") /\ Step /\ UNCHANGED cps
           /\ LET S == [bytes |-> Ev.bytes, e |-> "be", inf |-> FALSE]
@@ -104,7 +109,7 @@ CPNew == /\ Is("cp_new") /\ Step
                                   c |-> IF Ev.kind = "code" THEN CodeOf(Ev) ELSE CGamma,
                                   steps |-> IF Ev.kind = "steps" THEN Ev.steps ELSE <<>>,
                                   v0 |-> IF Ev.kind = "steps" THEN Ev.v0 ELSE 0,
-                                  n |-> 0, last |-> <<>>, lastlen |-> 0, ksum |-> <<>>, ended |-> FALSE])
+                                  n |-> 0, last |-> <<>>, lastlen |-> 0, ksum |-> <<>>, ended |-> FALSE, pts |-> <<>>])
 Half64 == Pow2(63)
 \* the i-th change point of a step function (1-based): 0 then the steps
 StepCP(it, i) == IF i = 1 THEN [pos |-> <<>>, val |-> it.v0]
@@ -125,7 +130,7 @@ CPNext ==
                                /\ CLen(it.c, Dec1(x)) = it.lastlen       \* nothing skipped (lengths are monotone)
                                /\ Ev.fx # it.lastlen
                /\ cps' = [cps EXCEPT ![Ev.o] =
-                            [it EXCEPT !.n = @ + 1, !.last = x, !.lastlen = Ev.fx,
+                            [it EXCEPT !.n = @ + 1, !.last = x, !.lastlen = Ev.fx, !.pts = Append(@, <<x, Ev.fx>>),
                                        !.ksum = IF it.n = 0 \/ it.kind = "steps" \/ it.lastlen > KScale THEN @
                                                 ELSE Add(@, KTerm(it.last, x, it.lastlen))]]
           ELSE \* the iterator ended: no change point up to 2^63 is left
@@ -141,7 +146,41 @@ CPKraft == /\ Is("cp_kraft") /\ Step /\ UNCHANGED cps
                   total == Add(it.ksum, KTerm(it.last, Dec1(Pow2(64)), it.lastlen))
               IN  it.kind = "code" /\ it.ended /\ it.lastlen <= KScale /\ Leq(total, Pow2(KScale))
 
-Next == Reset \/ ZZ \/ ZZSweep \/ VBWrite \/ VBRead \/ LenSteps \/ CPNew \/ CPNext \/ CPKraft
+\* ---- the implied distribution of a length function (src/utils/implied.rs): the change
+\* points with length <= 128 (the iterator o has just replayed them), the probability
+\* of each bracket but the last as an IEEE double, and samples drawn from it.
+\* A double is logged exactly as [odd mantissa, exponent]; the expected one is
+\* (x2 - x1) rounded to 53 bits (ties to even), times 2^-len (exact).
+Round53(D) == IF Len(D) <= 53 THEN [m |-> D, e |-> 0]
+              ELSE LET k == Len(D) - 53
+                       top == SubSeq(D, 1, 53)
+                       rest == Norm(SubSeq(D, 54, Len(D)))
+                       half == Pow2(k - 1)
+                       up == Lt(half, rest) \/ (rest = half /\ top[53] = 1)
+                   IN  [m |-> IF up THEN Inc(top) ELSE top, e |-> k]
+ProbOK(p1, p2, pr) ==
+    LET r == Round53(Sub(p2[1], p1[1]))
+        k == SelectLastInSeq(r.m, LAMBDA t : t = 1)
+    IN  /\ Nat8(pr[1]) = SubSeq(r.m, 1, k)
+        /\ pr[2] = r.e + (Len(r.m) - k) - p1[2]
+ImpliedMaxLen == 128
+Implied ==
+    /\ Is("implied") /\ Step /\ UNCHANGED cps
+    /\ LET it == cps[Ev.o]  pts == it.pts  n == Len(pts) IN
+       /\ it.kind = "code" /\ ~it.ended /\ n = it.n /\ n >= 1
+       /\ \A i \in 1..n : pts[i][2] <= ImpliedMaxLen
+       \* nothing at most 128 bits long is left out: the witness is the next change point
+       /\ IF Ev.nxt = "some"
+          THEN LET y == Nat8(Ev.nx) IN Lt(it.last, y) /\ CLen(it.c, Dec1(y)) = it.lastlen /\ CLen(it.c, y) > ImpliedMaxLen
+          ELSE Ev.nxt = "none" /\ (Lt(it.last, Half64) => CLen(it.c, Half64) = it.lastlen)
+       /\ Len(Ev.probs) = n - 1
+       /\ \A i \in 1..(n - 1) : ProbOK(pts[i], pts[i + 1], Ev.probs[i])
+       \* sampling: possible iff there is at least one bracket; every sample lies in one
+       /\ IF n = 1 THEN Ev.sres = "panic"
+          ELSE /\ Ev.sres = "ok" /\ Len(Ev.samples) = Ev.nsamples
+               /\ \A j \in 1..Len(Ev.samples) : Lt(Nat8(Ev.samples[j]), pts[n][1])
+
+Next == Implied \/ Reset \/ ZZ \/ ZZSweep \/ VBWrite \/ VBRead \/ LenSteps \/ CPNew \/ CPNext \/ CPKraft
 Spec == Init /\ [][Next]_vars
 Accepted ==
     LET d == TLCGet("stats").diameter
